@@ -514,6 +514,9 @@ def check_for_uniform_time_steps(epoch):
 
     """
     delta_t = np.diff(epoch)
+    if len(delta_t) == 0:
+        # A single time has no steps to compare
+        return
     if delta_t.min() != delta_t.max():
         raise ValueError("Nonuniform time steps in {}".format(sorted(set(delta_t))))
 
